@@ -34,19 +34,28 @@ func runWithSchedule(cfg Config, steps []Step, sched SchedSpec, stats *Stats, en
 	w := NewWorld(cfg, stats)
 	sr := NewRng(sched.Seed).Sub("sched")
 	out := &schedRun{w: w}
+	cr := NewRng(sched.Seed).Sub("commit-flavour")
+	commitStep := func(op string) *Step {
+		// both commit flavours and several worker counts: the result must not depend on them either
+		fl := "fc"
+		if cr.Chance(0.4) {
+			fl = "nfc"
+		}
+		return &Step{Op: op, Flavour: fl, Workers: []int{1, 2, 4}[cr.Intn(3)]}
+	}
 	act := func(kind string) *Violation {
 		switch kind {
 		case "commit":
-			return w.execGuarded(&Step{Op: "commit", Flavour: "fc", Workers: 1})
+			return w.execGuarded(commitStep("commit"))
 		case "commit+drop":
-			if v := w.execGuarded(&Step{Op: "commit", Flavour: "fc", Workers: 1}); v != nil {
+			if v := w.execGuarded(commitStep("commit")); v != nil {
 				return v
 			}
 			return w.execGuarded(&Step{Op: "dropcache"})
 		case "drop":
 			return w.execGuarded(&Step{Op: "dropcache"})
 		case "reopen":
-			return w.execGuarded(&Step{Op: "reopen", Flavour: "fc", Workers: 1})
+			return w.execGuarded(commitStep("reopen"))
 		}
 		return nil
 	}
